@@ -1634,6 +1634,37 @@ fn flushstorm_case(rng: &mut Rng, out: &mut Out, dir: &str, idx: u64) {
     let _ = std::fs::remove_file(&path);
 }
 
+/// many callers of `flush()` at once (each after writing a fresh key), for a number of rounds: requests and answers
+/// travel between callers and flush workers over bounded channels - every caller must come back.
+fn manyflush_case(rng: &mut Rng, out: &mut Out, dir: &str, idx: u64) {
+    use std::sync::atomic::{AtomicU64, Ordering as O};
+    feoxdb::verif::clock::unpin();
+    let path = format!("{}/manyflush{}.feox", dir, idx);
+    let _ = std::fs::remove_file(&path);
+    let store = match FeoxStore::builder().hash_bits(8).no_memory_limit().device_path(path.clone()).file_size(8192 * BS).enable_caching(false).build() {
+        Ok(s) => Arc::new(s), Err(_) => return };
+    let callers = rng.range(6, 16);
+    let rounds = rng.range(40, 120);
+    let done = Arc::new(AtomicU64::new(0));
+    let mut hs = vec![];
+    for t in 0..callers {
+        let (st, done) = (store.clone(), done.clone());
+        hs.push(std::thread::spawn(move || { for r in 0..rounds { let _ = st.insert(format!("mf{}-{}-{}", idx, t, r).as_bytes(), &[t as u8; 64]); let _ = st.flush(); } done.fetch_add(1, O::SeqCst); }));
+    }
+    let t0 = Instant::now();
+    while done.load(O::SeqCst) < callers && t0.elapsed() < WATCHDOG { std::thread::sleep(Duration::from_millis(2)); }
+    out.count("manyflush case");
+    if done.load(O::SeqCst) < callers {
+        out.failures.push(format!("C18\t{} threads calling flush() at once ({} rounds each, every one after writing a fresh key): {} of them had not come back after {} s\t-", callers, rounds, callers - done.load(O::SeqCst), WATCHDOG.as_secs()));
+        return; // the stuck threads cannot be cleaned up
+    }
+    for h in hs { let _ = h.join(); }
+    let st = store.clone();
+    drop(store);
+    if !with_watchdog(move || drop(st)) { out.failures.push("C18\tdrop of the store after concurrent flush callers did not return\t-".into()); }
+    let _ = std::fs::remove_file(&path);
+}
+
 /// the live io_uring path with a device that rejects writes: the store is opened with the ring enabled (every
 /// other case forces the synchronous path for determinism), then the file-size limit of the process is lowered so
 /// that ring writes past it complete with EFBIG.  flush(), reads and drop must all return; with room again a
@@ -2329,6 +2360,10 @@ fn main() {
     // (a storm saturates several cores: only every fourth harness process of a run takes part)
     for i in 0..(if args.seed % 4 == 0 { get("flushstorm", 0) } else { 0 }) {
         flushstorm_case(&mut rng, &mut out, &args.out, i);
+    }
+    for i in 0..get("manyflush", 0) {
+        manyflush_case(&mut rng, &mut out, &args.out, i);
+        if out.failures.iter().any(|f| f.starts_with("C18")) { break; }
     }
     for i in 0..get("clockrace", 0) {
         clockrace_case(&mut rng, &mut out, i);
